@@ -2,7 +2,7 @@
 with the real Machine.__contains__ inlined).  The tree construction and repair (object graphs)
 are decided by bounded/c03_route.py."""
 from pyvc.spec import contract, lemma
-from pyvc.values import TInt, TTuple, TRec, TSet
+from pyvc.values import TInt, TTuple, TRec, TSet, TSmallSet
 from pyvc.speclib import implies, iff, ite
 from rig.place_and_route.machine import Machine     # noqa: F401  (class resolution for the engine)
 
@@ -25,6 +25,7 @@ def working(machine, x, y, l):
 class LinksBetween:
     properties = ("C03", "C11")      # (C11: links, vectors and the torus size are mutually consistent)
     params = dict(a=T2, b=T2, machine=MACHINE)
+    result = TSmallSet(list(range(6)))          # (a set of links; used by contract in CopyTreeNode)
     options = {"int_class": "rig/links.py::Links"}
 
     def native(a, b, machine):
@@ -144,3 +145,108 @@ def taken_iff(node, l, machine, _trace):
     return (implies(not take, len(_trace) == 0)
             and implies(take, len(_trace) == 2 and _trace[0] == ("visited", (nx, ny), (l, node))
                         and _trace[1] == ("push", (uf("h", nx, ny), (nx, ny)))))
+
+
+from pyvc.values import TOpt, TList, ObjV   # noqa: E402
+
+# ---- copy_and_disconnect_tree: one node taken from the queue (fragment of its while loop) ---------------------------------------------
+NODE = TRec("RoutingTree", ident=TInt(), chip=T2, children=TRec("Children"))
+OLDNODE = TRec("OldTree", chip=T2, children=TList(TTuple(TInt(0, 5), TInt()), TTuple(TInt(0, 5), TInt())))
+
+
+def _popleft(E, obj, args, kwargs, st, node):
+    return [(st, (st.env["g_parent"], st.env["g_direction"], st.env["g_old"]), None)]
+
+
+def _queue_append(E, obj, args, kwargs, st, node):
+    s = st.copy()
+    parent, direction, child = args[0]
+    s.trace = _ListV(s.trace.items + (("queued", parent.fields["ident"], direction, child),))
+    return [(s, _NONE, None)]
+
+
+def _new_tree(E, args, kwargs, st, node):
+    s = st.copy()
+    s.trace = _ListV(s.trace.items + (("node_made", args[0]),))
+    return [(s, ObjV("RoutingTree", {"ident": 1000, "chip": args[0], "children": ObjV("Children", {"of": 1000})}))]
+
+
+def _lookup_set(E, obj, args, kwargs, st, node):
+    s = st.copy()
+    s.trace = _ListV(s.trace.items + (("lookup", args[0], args[1].fields["ident"]),))
+    return [(s, _NONE, None)]
+
+
+def _children_append(E, obj, args, kwargs, st, node):
+    s = st.copy()
+    s.trace = _ListV(s.trace.items + (("child_added", args[0][0], args[0][1].fields["ident"]),))
+    return [(s, _NONE, None)]
+
+
+def _broken_add(E, obj, args, kwargs, st, node):
+    s = st.copy()
+    s.trace = _ListV(s.trace.items + (("broken", args[0]),))
+    return [(s, _NONE, None)]
+
+
+@contract("rig/place_and_route/route/ner.py::copy_and_disconnect_tree@whilebody:0")
+class CopyTreeNode:
+    """one node of the old tree (here: with a parent on a working chip, itself on a working chip): a new node is made for its
+    chip and filed under that chip; it is hung on its parent by the hop's own direction exactly when that direction is a WORKING
+    link leading from the parent's chip to this chip (links_between's contract) - otherwise the pair (parent chip, this chip) is
+    recorded as broken and nothing is hung; its children are queued with the new node as their parent"""
+    properties = ("C03", "C01")
+    params = dict(to_visit=TRec("Queue"), machine=MACHINE, new_lookup=TRec("Lookup"), broken_links=TRec("Broken"), new_root=TOpt(TInt()),
+                  g_parent=TRec("RoutingTree", ident=TInt(0, 999), chip=T2, children=TRec("Children")), g_direction=TInt(0, 5), g_old=OLDNODE)
+    fragment_result = ()
+    fragment_head = "while to_visit:"
+    modular = ("rig/place_and_route/route/utils.py::links_between",)
+    externals = {"Queue.popleft": _popleft, "Queue.append": _queue_append, "class:RoutingTree": _new_tree, "Lookup.__setitem__": _lookup_set,
+                 "Children.append": _children_append, "Broken.add": _broken_add}
+    options = {"int_class": "rig/links.py::Links", "no_merge": True}
+    assumptions = ["tree nodes are records with an identity; the queue, the lookup, the children lists and the set of broken links are opaque (recorded); "
+                   "this contract covers a node whose parent exists and whose own chip and parent chip are working"]
+
+    def native(machine):
+        raise __import__("pyvc.replay", fromlist=["OutsideHarness"]).OutsideHarness()
+
+    def requires(machine, g_parent, g_old):
+        return (working_chip(machine, g_old.chip) and working_chip(machine, g_parent.chip))
+
+    def ensures_hung_on_its_parent_iff_the_hop_is_a_working_link_between_the_two_chips(machine, g_parent, g_direction, g_old, _trace):
+        a, b = g_parent.chip, g_old.chip
+        ok = ((a[0] + link_vec(g_direction)[0]) % machine.width == b[0] and (a[1] + link_vec(g_direction)[1]) % machine.height == b[1]
+              and working(machine, a[0], a[1], g_direction))
+        return (len(_trace) == 5 and _trace[0] == ("node_made", b) and _trace[1] == ("lookup", b, 1000)
+                and implies(ok, _trace[2] == ("child_added", g_direction, 1000))
+                and implies(not ok, _trace[2] == ("broken", (a, b)))
+                and _trace[3] == ("queued", 1000, g_old.children[0][0], g_old.children[0][1])
+                and _trace[4] == ("queued", 1000, g_old.children[1][0], g_old.children[1][1]))
+
+
+def working_chip(machine, c):
+    return 0 <= c[0] < machine.width and 0 <= c[1] < machine.height and c not in machine.dead_chips
+
+
+@contract("rig/place_and_route/route/ner.py::copy_and_disconnect_tree@whilebody:0", variant="dead_chip")
+class CopyTreeNodeOnDeadChip:
+    """a node of the old tree on a chip that is NOT working: no node is made for it, nothing is hung or recorded for it, and its
+    children are queued with ITS parent as their parent (they will be joined to it directly or be recorded as broken)"""
+    properties = ("C03", "C01")
+    params = dict(to_visit=TRec("Queue"), machine=MACHINE, new_lookup=TRec("Lookup"), broken_links=TRec("Broken"), new_root=TOpt(TInt()),
+                  g_parent=TRec("RoutingTree", ident=TInt(0, 999), chip=T2, children=TRec("Children")), g_direction=TInt(0, 5), g_old=OLDNODE)
+    fragment_result = ()
+    fragment_head = "while to_visit:"
+    modular = ("rig/place_and_route/route/utils.py::links_between",)
+    externals = CopyTreeNode.externals
+    options = {"int_class": "rig/links.py::Links", "no_merge": True}
+
+    def native(machine):
+        raise __import__("pyvc.replay", fromlist=["OutsideHarness"]).OutsideHarness()
+
+    def requires(machine, g_parent, g_old):
+        return not working_chip(machine, g_old.chip)
+
+    def ensures_skipped_and_its_children_handed_to_its_parent(g_parent, g_old, _trace):
+        return (len(_trace) == 2 and _trace[0] == ("queued", g_parent.ident, g_old.children[0][0], g_old.children[0][1])
+                and _trace[1] == ("queued", g_parent.ident, g_old.children[1][0], g_old.children[1][1]))
